@@ -38,7 +38,8 @@ Signatures: a violating case that contains free text with the marker word is re-
 replaced by plain words; if the violation disappears the signature is
 'marker-word-in-trailing-comment' (root cause: the 'exogenous' substring test runs on the raw line),
 otherwise, if it disappears when also the free text with line-separator characters (classes sep*) is
-replaced: 'line-separator-character-in-free-text';
+replaced: 'line-separator-character-in-free-text'; likewise for free text ending in a backslash / operator /
+ellipsis (classes end*): 'line-continuation-character-at-end-of-free-text';
 otherwise: 'default-t-added-although-user-defines-time-axis' when the block defines t / t_minus_1 and
 the observed simultaneous list nevertheless holds t = k; else the signature spells the line forms.  A block with a malformed run-parameter value (MaxTime = 2.5, Err_Tolerance = CAT) that
 the call accepts without raising or reporting: 'malformed-run-parameter-value-accepted'.  Several calls on one object: 'state-carried-over-from-an-earlier-ParseString-call'
@@ -58,6 +59,7 @@ DRIFT = {'o': 'list_or_message_order'}
 SIG_MARKER = 'marker-word-in-trailing-comment'
 SIG_TIME = 'default-t-added-although-user-defines-time-axis'
 SIG_SEP = 'line-separator-character-in-free-text'
+SIG_JOIN = 'line-continuation-character-at-end-of-free-text'
 SIG_PARAM = 'malformed-run-parameter-value-accepted'
 SIG_REUSE = 'state-carried-over-from-an-earlier-ParseString-call'
 SIG_MODEL = 'model-free-text-not-inert:'       # + the classes of the free texts of the model
@@ -75,19 +77,22 @@ COMMENTS = [
      'sepeq': 'the 2015 version had<S> q = 0.25 * y', 'sepic': 'the 2015 version started from<S> x(0) = 0.',
      'sepexo': 'tax rule<S> (the rate is exogenous in later versions)', 'sepplain': 'tax rule<S> flat rate',
      'exoU': 'labour supply is not EXOGENOUS here', 'exoM': 'Exogenous demand',
-     'tagline': 'see # Exogenous Variables', 'pmax': 'MaxTime = 9', 'ptol': 'Err_Tolerance = 1'},
+     'tagline': 'see # Exogenous Variables', 'pmax': 'MaxTime = 9', 'ptol': 'Err_Tolerance = 1',
+     'endbs': 'see C:\\data\\', 'endop': 'continued: a + b +', 'enddots': 'and so on ...'},
     {'plain': 'Lagged value (previous period)', 'eq': 'x=1', 'hash': '## ## #',
      'digits': '42 (k-1) 2.', 'exo': 'Exogenous demand, G = 20 #1',
      'sepeq': 'was<S>x = 7', 'sepic': 'init<S>z(0)=1<S>MaxTime = 9', 'sepexo': 'note<S># Exogenous Variables',
      'sepplain': 'a<S>b<S><S>c',
      'exoU': 'EXOGENOUS', 'exoM': 'see Exogenous Variables', 'tagline': '# Exogenous Variables',
-     'pmax': 'uses MaxTime=1', 'ptol': 'Err_Tolerance=1e-2'},
+     'pmax': 'uses MaxTime=1', 'ptol': 'Err_Tolerance=1e-2',
+     'endbs': 'x_{t-1}\\', 'endop': 'f(a,', 'enddots': 'continued _ ^ &'},
 ]
 # what str.splitlines() (and text tools built like it) cuts at, besides '\n': form feed, vertical tab, the
 # ASCII file / group / record separators, NEL, the Unicode line / paragraph separators, a bare carriage return
 SEPS = ['\x0c', '\x0b', '\x1c', '\x1d', '\x1e', '\x85', u'\u2028', u'\u2029', '\r']
 SEP_NAMES = ['FF', 'VT', 'FS', 'GS', 'RS', 'NEL', 'U+2028', 'U+2029', 'CR']
 SEP_CLASSES = ('sepeq', 'sepic', 'sepexo', 'sepplain')
+END_CLASSES = ('endbs', 'endop', 'enddots')
 ALL_SEP_VARIANTS = tuple(2 * i + i % 2 for i in range(len(SEPS)))      # every separator, texts alternating
 
 
@@ -410,6 +415,9 @@ def judge_blocks_gen(rep, items):
     cure_marker = yield from cure_batch([i for i, _ in bad if has_marker_text(items[i][0])], MARKER_WORD_CLASSES)
     cure_sep = yield from cure_batch([i for i, _ in bad if has_sep_text(items[i][0]) and not cure_marker.get(i)],
                                      MARKER_WORD_CLASSES + SEP_CLASSES)
+    cure_end = yield from cure_batch([i for i, _ in bad if any(f['cc'] in END_CLASSES for f in items[i][0])
+                                      and not cure_marker.get(i) and not cure_sep.get(i)],
+                                     MARKER_WORD_CLASSES + SEP_CLASSES + END_CLASSES)
     for i, letters in bad:
         forms, variant = items[i]
         ev = traces[i][1][0]
@@ -417,6 +425,8 @@ def judge_blocks_gen(rep, items):
             sig = SIG_MARKER
         elif cure_sep.get(i):
             sig = SIG_SEP
+        elif cure_end.get(i):
+            sig = SIG_JOIN
         elif 'R' in letters and ev['obs']['ok'] and any(f['kind'] in ('badmax', 'baderr') for f in forms):
             sig = SIG_PARAM
         elif user_time(forms) and {'var': 't', 'rhs': 'k'} in ev['obs']['endo']:
@@ -455,7 +465,7 @@ TEMPLATES = {
     'lagtime': [L('eq', 's', 't+1'), L('lag1', 't', 's'), L('ic', 't', '2000.'), L('eq', 'y', '0.5*y+s'),
                 L('marker'), L('eq', 'g', '[2.]*10'), L('maxtime', 'MaxTime', '3')],
 }
-HOSTILE = ('plain', 'eq', 'hash', 'digits', 'exo') + SEP_CLASSES
+HOSTILE = ('plain', 'eq', 'hash', 'digits', 'exo') + SEP_CLASSES + END_CLASSES
 SPACINGS = ('tight', 'one', 'wide')
 LAGS = ('lag1', 'lag2', 'lag3')
 
@@ -535,6 +545,11 @@ NAME_TEXT = [
      'sepeq': 'Name<S>GOV__T = 0.', 'sepic': 'Name<S>GOV__F(0)=1<S>MaxTime = 2', 'sepexo': 'Name<S># Exogenous Variables',
      'sepplain': 'a<S>b<S><S>c'},
 ]
+
+
+for _v in (0, 1):
+    for _c in ('endbs', 'endop', 'enddots'):
+        NAME_TEXT[_v][_c] = 'Sector; ' + COMMENTS[_v][_c]
 
 
 def build_sim(names, extras=True, max_time=3):
@@ -680,6 +695,8 @@ def judge_pairs_gen(rep, cases):
                                         MARKER_WORD_CLASSES)
     cure_sep = yield from cure_batch([i for i in bad if pair_has(cases[i], SEP_CLASSES) and not cure_marker.get(i)],
                                      MARKER_WORD_CLASSES + SEP_CLASSES)
+    cure_end = yield from cure_batch([i for i in bad if pair_has(cases[i], END_CLASSES) and not cure_marker.get(i)
+                                      and not cure_sep.get(i)], MARKER_WORD_CLASSES + SEP_CLASSES + END_CLASSES)
     for i in bad:
         c = cases[i]
         letters = split_verdict(verdicts[i])[1]
@@ -687,6 +704,8 @@ def judge_pairs_gen(rep, cases):
             sig = SIG_MARKER
         elif cure_sep.get(i):
             sig = SIG_SEP
+        elif cure_end.get(i):
+            sig = SIG_JOIN
         else:
             sig = pair_signature(c)
         case = dict(info[i], observed=traces[i][1][0], case=list(c))
@@ -820,7 +839,11 @@ def model_behaviours(rep, res=None):
     # quick: the two spellings alternate; thorough: both
     if rep.tier == 'quick':
         return [(decode_desc(c), n % 2) for n, c in enumerate(codes)]
-    return [(decode_desc(c), v) for c in codes for v in (0, 1)]
+    out = []
+    for n, c in enumerate(codes):
+        d = decode_desc(c)
+        out.extend((d, v) for v in ((0, 1) if len(d) <= 1 else (n % 2,)))
+    return out
 
 
 # --------------------------------------------------------------------------------------
@@ -831,9 +854,10 @@ def run(rep):
     # (cfg, variants used to spell each behaviour)
     # 'rot' = one variant per behaviour, walking through the separators
     plan = [('MC_Parser_quick.cfg', (0,)), ('MC_Parser_quick2.cfg', (0, 1)), ('MC_Parser_quick3.cfg', (0, 1)),
-            ('MC_Parser_quick4.cfg', ALL_SEP_VARIANTS)]
+            ('MC_Parser_quick4.cfg', ALL_SEP_VARIANTS), ('MC_Parser_quick6.cfg', (0, 1))]
     if rep.tier != 'quick':
         plan += [('MC_Parser_thorough3.cfg', (0, 1)), ('MC_Parser_thorough4.cfg', ALL_SEP_VARIANTS),
+                 ('MC_Parser_thorough6.cfg', (0, 1)),
                  ('MC_Parser_thorough2.cfg', 'rot'), ('MC_Parser_thorough.cfg', (0,))]
     rep.rule = ('behaviours = all maximal behaviours of the bounded Parser instance emitted by TLC = equation blocks '
                 'as sequences of line forms (kind x variable/right-hand side x trailing-comment class x spacing), '
@@ -856,7 +880,8 @@ def run(rep):
                         heap='4g')
     # the small instances run side by side (one worker each); the large ones one after the other
     small = [cfg for cfg, _v in plan if 'thorough' not in cfg or cfg in ('MC_Parser_thorough3.cfg',
-                                                                          'MC_Parser_thorough4.cfg')]
+                                                                          'MC_Parser_thorough4.cfg',
+                                                                          'MC_Parser_thorough6.cfg')]
     small.append(model_cfg(rep))
     results = {}
     with concurrent.futures.ThreadPoolExecutor(max_workers=7) as ex:
